@@ -217,6 +217,10 @@ Init ==
     /\ ncalls = 0
 
 Spec == Init /\ [][Next]_vars
+\* liveness: if the caller keeps stepping, every episode ends (checked without any state constraint; MaxCalls must exceed
+\* the longest episode of the model, otherwise the bound itself stops the caller)
+FairSpec == Spec /\ WF_vars(Step)
+EpisodeEnds == (env.k > 0) ~> (env.done \/ env.dead \/ ncalls = MaxCalls)
 
 -----------------------------------------------------------------------------
 \* Declarative statement of the properties, from cfg alone (not from the mechanism above)
